@@ -522,6 +522,58 @@ def unit_arbf_args(ctx):
     ctx.holds("arbf_args rejects order > 3", all(p[0] == "raise" and exc_name(p) == "ValueError" for p in rp), "", fq)
 
 
+def unit_get_dim(ctx):
+    """get_dim: the tabulation interval of one feature.  ensures (bound given) the interval IS the feature's bounds, whatever the control points are — the
+    mapped model is used on the whole bounded domain, not on the hull of the training data; (no bound) the hull of the data widened by buff;
+    3 <= ngrid, ngrid <= max_ngrid when given."""
+    it = ctx.interp
+    setup_interp(it)
+    mm = it.load_module(MMOD)
+    fq = [MMOD + ":get_dim"]
+    xs = sym_array("xc", (NS + 1,))
+    b0, b1, buff = tm.var("b0"), tm.var("b1"), tm.var("buff")
+    H = [tm.mk_lt(b0, b1), tm.mk_le(tm.ZERO, buff)]
+    for mx in (None, 5):
+        paths = all_paths(it, lambda: it.call(mm.ns["get_dim"], [xs.copy(), Q(3, 4)], {"density": 2, "buff": buff, "bound": (b0, b1), "max_ngrid": mx}))
+        ret, exc = returned(paths)
+        ctx.holds("get_dim[bound, max_ngrid=%s] returns" % mx, len(ret) >= 1 and not exc, "%s" % [str(p[1])[:200] for p in exc], fq)
+        for k, (out, pc) in enumerate(ret):
+            mini, maxi, ngrid = out
+            ctx.equal("get_dim[bound, max_ngrid=%s] path %d: the interval starts at the feature's lower bound" % (mx, k), H + list(pc), mini, b0, fq, replay=replay_get_dim())
+            ctx.equal("get_dim[bound, max_ngrid=%s] path %d: the interval ends at the feature's upper bound" % (mx, k), H + list(pc), maxi, b1, fq, replay=replay_get_dim())
+            ng = tm.lift(ngrid)
+            trunc_ax = []
+            for t in tm.subterms(ng).values():
+                if t.op == "f" and t.args[0] == "trunc":
+                    a = t.args[1]
+                    trunc_ax += [tm.mk_implies(tm.mk_le(tm.ZERO, a), tm.mk_and(tm.mk_le(t, a), tm.mk_lt(a, t + 1)))]
+            ctx.valid("get_dim[bound, max_ngrid=%s] path %d: at least 3 nodes%s" % (mx, k, "" if mx is None else ", at most max_ngrid"), H + list(pc) + trunc_ax,
+                      tm.mk_and(tm.mk_le(tm.lift(3), ng), tm.TRUE if mx is None else tm.mk_le(ng, tm.lift(mx))), fq)
+    paths = all_paths(it, lambda: it.call(mm.ns["get_dim"], [xs.copy(), Q(3, 4)], {"density": 2, "buff": buff, "max_ngrid": 4}))
+    ret, exc = returned(paths)
+    ctx.holds("get_dim[no bound] returns", len(ret) >= 1 and not exc, "%s" % [str(p[1])[:200] for p in exc], fq)
+    for k, (out, pc) in enumerate(ret):
+        mini, maxi, ngrid = out
+        for j in range(NS + 1):
+            ctx.valid("get_dim[no bound] path %d: control point %d lies in [mini + buff, maxi - buff]" % (k, j), H + list(pc),
+                      tm.mk_and(tm.mk_le(tm.lift(mini) + buff, xs[j]), tm.mk_le(xs[j], tm.lift(maxi) - buff)), fq)
+    if ret:
+        ctx.canary("get_dim canary", H + list(ret[0][1]), ret[0][0][0], b1)
+
+
+def replay_get_dim():
+    def replay(wit):
+        from pyvc import native
+        native.install_shim()
+        import contextlib
+        import io
+        from ciderpress.models.kernel_plans.map_tools import get_dim
+        with contextlib.redirect_stdout(io.StringIO()):
+            got = get_dim(np.array([0.4, 0.5, 0.6]), 0.75, density=2, buff=0.0, bound=(0.0, 1.0))
+        return {"reproduced": bool(got[0] != 0.0 or got[1] != 1.0), "get_dim": [float(got[0]), float(got[1]), int(got[2])], "bounds": [0.0, 1.0]}
+    return replay
+
+
 def units():
     u = []
     for fn in ("evaluate_se_kernel", "evaluate_se_kernel_antisym", "evaluate_se_kernel_spin"):
@@ -534,6 +586,7 @@ def units():
         u.append(("mapping/" + label, unit_mapping(label)))
     u.append(("mapping/simple+linear", unit_simple))
     u.append(("arbf_args", unit_arbf_args))
+    u.append(("get_dim", unit_get_dim))
     return u
 
 
